@@ -79,6 +79,24 @@ pub fn handle(op: &str, cmd: &Value) -> Value {
             json!({"all_ok": ok_empty && ok_ident && ok_ns && ok_disp, "is_empty": ok_empty, "ident": ok_ident, "namespace": ok_ns, "display": ok_disp})
         }
         "table_step" => table_step(cmd),
+        "corpus_bytes_nodocs" => {
+            use scale::Encode;
+            use std::hash::{Hash, Hasher};
+            let mut h = std::collections::hash_map::DefaultHasher::new();
+            let mut total = 0usize;
+            for mut r in crate::laws::corpus_registries() {
+                for t in r.types.iter_mut() {
+                    t.ty.docs.clear();
+                    match &mut t.ty.type_def {
+                        scale_info::TypeDef::Composite(c) => for f in c.fields.iter_mut() { f.docs.clear() },
+                        scale_info::TypeDef::Variant(v) => for x in v.variants.iter_mut() { x.docs.clear(); for f in x.fields.iter_mut() { f.docs.clear() } },
+                        _ => {}
+                    }
+                }
+                let b = r.encode(); total += b.len(); b.hash(&mut h);
+            }
+            json!({"sha": format!("{:016x}-{}", h.finish(), total)})
+        }
         "corpus_native" => {
             let r = match cmd["tag"].as_str().unwrap_or("") { "c03" => crate::c03_gen::native_all(cmd["rounds"].as_u64().unwrap_or(300) as usize, cmd["seed"].as_u64().unwrap_or(1)),
                 "c04" => crate::c04_gen::native_all(cmd["rounds"].as_u64().unwrap_or(300) as usize, cmd["seed"].as_u64().unwrap_or(1)), _ => vec![] };
